@@ -90,6 +90,29 @@ pub fn scenarios(st: &mut Stats) -> Vec<Scn> {
         v.push((ty, "DDDDD", "06001", Given { day: Some(1), doy: Some(60), ..g() }, false));
         v.push((ty, "DDD", "61", Given { doy: Some(61), ..g() }, false));
     }
+    // a weekday next to a day (and a month) but no year: under every clock some of the seven names is the right one
+    const WD3: [&str; 7] = ["sun", "mon", "tue", "wed", "thu", "fri", "sat"];
+    const WDF: [&str; 7] = ["sunday", "monday", "tuesday", "wednesday", "thursday", "friday", "saturday"];
+    const WDT: [&str; 28] = ["sun 01", "mon 01", "tue 01", "wed 01", "thu 01", "fri 01", "sat 01", "sun 02", "mon 02", "tue 02", "wed 02", "thu 02", "fri 02", "sat 02",
+        "sun 31", "mon 31", "tue 31", "wed 31", "thu 31", "fri 31", "sat 31", "sun 29", "mon 29", "tue 29", "wed 29", "thu 29", "fri 29", "sat 29"];
+    const WDM: [&str; 21] = ["sun 14 feb", "mon 14 feb", "tue 14 feb", "wed 14 feb", "thu 14 feb", "fri 14 feb", "sat 14 feb", "sun 29 feb", "mon 29 feb", "tue 29 feb", "wed 29 feb", "thu 29 feb", "fri 29 feb",
+        "sat 29 feb", "sun 01 mar", "mon 01 mar", "tue 01 mar", "wed 01 mar", "thu 01 mar", "fri 01 mar", "sat 01 mar"];
+    const WDN: [&str; 7] = ["1 31 dec", "2 31 dec", "3 31 dec", "4 31 dec", "5 31 dec", "6 31 dec", "7 31 dec"];
+    for (k, text) in WDT.iter().enumerate() {
+        let day = [1i64, 2, 31, 29][k / 7];
+        v.push((Ty::Date, "DY DD", *text, Given { dow: Some((k % 7) as u32), day: Some(day), ..g() }, false));
+    }
+    for (k, text) in WDM.iter().enumerate() {
+        let (day, month) = [(14i64, 2i64), (29, 2), (1, 3)][k / 7];
+        v.push(([Ty::Date, Ty::Ts, Ty::Ora][k % 3], "DY DD MON", *text, Given { dow: Some((k % 7) as u32), day: Some(day), month: Some(month), ..g() }, false));
+    }
+    for (k, text) in WDN.iter().enumerate() {
+        v.push((Ty::Date, "D DD MON", *text, Given { dow: Some(k as u32), day: Some(31), month: Some(12), ..g() }, false));
+    }
+    for k in 0..7 {
+        v.push((Ty::Ts, "DAY", WDF[k], Given { dow: Some(k as u32), ..g() }, false));
+        v.push((Ty::Ora, "DY", WD3[k], Given { dow: Some(k as u32), ..g() }, false));
+    }
     for ty in [Ty::Ts, Ty::Ora] {
         // a meridian without an hour field: the omitted 12-hour field is 12
         v.push((ty, "PM", "PM", Given { pm: Some(true), ..g() }, false));
